@@ -133,6 +133,9 @@ func RunOne(f *Family, hist []Op, eager bool) (*Result, string) {
 	opt := f.Opt
 	opt.Eager = eager
 	var res *Result
+	if opt.Free {
+		return Run(opt, hist), ""
+	}
 	v := runManaged(func() { res = Run(opt, hist) })
 	return res, v
 }
@@ -252,7 +255,11 @@ func RunLevel(family, params string, depth int, deadline time.Time, fpAll map[ui
 	var wg sync.WaitGroup
 	complete := true
 	sem := make(chan struct{}, n)
-	for _, eager := range []bool{true, false} {
+	policies := []bool{true, false}
+	if Lookup(family, params).Opt.Free {
+		policies = []bool{true}
+	}
+	for _, eager := range policies {
 		for s := 0; s < n; s++ {
 			wg.Add(1)
 			sem <- struct{}{}
@@ -434,7 +441,7 @@ func RunPlans(rp *hk.Reporter, plans []Plan, budget *hk.Budget, verbose bool) *S
 				}
 				_ = last
 				if !ok {
-					fmt.Fprintf(os.Stderr, "verifh: history %v did not reproduce (%s); not reported\n", v.History, v.Sig)
+					fmt.Fprintf(os.Stderr, "verifh: history %v did not reproduce (%s: %s); not reported\n", v.History, v.Sig, v.What)
 					sum.AllComplete = false
 					continue
 				}
